@@ -75,7 +75,13 @@ class Cx:
     def guard(self, rid, what, fn, *a, **kw):
         """run an anchor lookup; a missing anchor is a fail-closed violation"""
         try:
-            return fn(*a, **kw)
+            # the function(s) looked up here are what the rule is about: on the plain evaluation they become atoms of this run's
+            # vocabulary (never dissolved into their callers on the inlined views); lookups outside guard() are iterations
+            self.p.recording = True
+            try:
+                return fn(*a, **kw)
+            finally:
+                self.p.recording = False
         except core.AnchorMissing as e:
             self.bad(rid, "anchor-missing:%s" % what, "", str(e))
             return None
